@@ -43,3 +43,28 @@ pub fn sym_text3() -> ([u8; 3], usize) {
     kani::assume(b[0] != 0 && b[0] < 0x80 && b[1] != 0 && b[1] < 0x80 && b[2] != 0 && b[2] < 0x80);
     (b, n)
 }
+
+// ---- std stubs: word-at-a-time library routines replaced by their byte-loop specification. Trusted: that std's
+// `from_utf8` accepts exactly well-formed UTF-8 (the naive validator below is checked natively against std on all
+// 1- and 2-byte strings and a sample of longer ones) and that `memchr` returns the first index of the byte.
+const UTF8_ERR: core::str::Utf8Error = match core::str::from_utf8(&[0xff]) {
+    Err(e) => e,
+    Ok(_) => panic!(),
+};
+pub fn naive_from_utf8(v: &[u8]) -> Result<&str, core::str::Utf8Error> {
+    if crate::refmodel::dbus::utf8_valid(v) {
+        Ok(unsafe { core::str::from_utf8_unchecked(v) })
+    } else {
+        Err(UTF8_ERR)
+    }
+}
+pub fn naive_memchr(x: u8, text: &[u8]) -> Option<usize> {
+    let mut i = 0;
+    while i < text.len() {
+        if text[i] == x {
+            return Some(i);
+        }
+        i += 1;
+    }
+    None
+}
